@@ -25,6 +25,8 @@ func runC10(c *Ctx) {
 	c.Rule("C10.O2", "E4,E2", "flushResponse: Close only after flush (or at once on flush error), keep-alive renewal on the other edge, releaseRequest and releaseResponse exactly once on every path with a connection", 2)
 	c.Rule("C10.O3", "E1,E4", "ClientConn: handlers/closed/conn guarded by its mutex; Do appends before writing the request; onResponse invokes and pops index 0; close invokes all pending handlers and clears the list", 8)
 	c.Rule("C10.O4", "E7d", "startListeners: TLS and non-TLS switches over IOMod have cases {0,1,2}; blocking <-> AddConn*Blocking, non-blocking <-> AddConn*NonBlocking, mixed <-> A blocking with Decrease + B non-blocking; TLS loop uses the TLS variants", 8)
+	c.Rule("C10.O6", "E4,E6", "the TLS drain loops read the decrypted stream to exhaustion: an edge of a test on AppendAndRead's count that does not come back to AppendAndRead (without a new socket read) is taken only for a count of zero; one socket read can carry several TLS records, each returned by its own AppendAndRead", 2)
+	c10TLSDrain(c, "C10.O6", "nbhttp")
 
 	// ------------------------------------------------------------------ O1
 	if oc := c.Fn("C10.O1", "(*nbhttp.ServerProcessor).OnComplete"); oc != nil {
@@ -469,4 +471,71 @@ func c10Snapshot(c *Ctx, fi *ir.FnInfo, fn *ssa.Function, clear ssa.Instruction)
 		}
 	}
 	return n > 0
+}
+
+// c10TLSDrain: O6.  AppendAndRead returns the plaintext of one TLS record per
+// call.  A drain loop that stops on a short count leaves the records behind it
+// in the TLS layer until the peer sends again: pipelined requests wait, the
+// last one forever.
+func c10TLSDrain(c *Ctx, ob string, pkg string) {
+	for _, f := range c.pkgFuncs(pkg) {
+		fi := c.P.Info(f)
+		k := 0
+		for _, cs := range c.P.Calls(f, func(name string, _ ir.CallSite) bool { return strings.HasSuffix(name, ".AppendAndRead") }) {
+			call, ok := cs.In.(*ssa.Call)
+			if !ok || !fi.InLoop(call) {
+				continue
+			}
+			k++
+			key := c.siteKey(f, "TLS drain loop", k)
+			var nread ssa.Value
+			for _, r := range *call.Referrers() {
+				if e, ok := r.(*ssa.Extract); ok && e.Index == 1 {
+					nread = e
+				}
+			}
+			if nread == nil {
+				c.Bad(ob, key, c.Pos(call), "the count of AppendAndRead is discarded")
+				continue
+			}
+			refill := func(in ssa.Instruction) bool {
+				oc, ok := ir.AsCall(in)
+				return ok && strings.HasSuffix(c.P.CalleeName(oc.Common), ".Read")
+			}
+			bad := ""
+			nTests := 0
+			for _, i := range fi.Ifs() {
+				b, ok := i.Cond.(*ssa.BinOp)
+				if !ok {
+					continue
+				}
+				dep := func(v ssa.Value) bool {
+					v = ir.Resolve(ir.Unconv(v))
+					return v == nread
+				}
+				if !dep(b.X) && !dep(b.Y) {
+					continue
+				}
+				if !fi.Dominates(call, i) {
+					continue
+				}
+				nTests++
+				for e := 0; e < 2; e++ {
+					vis, _ := fi.ReachFromEdge(i, e, refill)
+					if vis[call] {
+						continue
+					}
+					cnd, t := ir.StripNot(i.Cond, e == 0)
+					facts := append(fi.Facts(i), ir.Fact{If: i, Cond: cnd, Truth: t})
+					if _, hi := ir.IntervalOf(facts, nread); hi > 0 {
+						bad = "the edge of the count test at " + c.Pos(i) + " that stops draining is taken for a positive count: a socket read that carried several TLS records delivers only the first, the rest stays in the TLS layer until more bytes arrive"
+					}
+				}
+			}
+			if nTests == 0 && bad == "" {
+				bad = "no test of AppendAndRead's count decides when the drain loop stops"
+			}
+			c.Cond(bad == "", ob, key, c.Pos(call), fmt.Sprintf("%d count test(s); draining stops only on zero", nTests), bad)
+		}
+	}
 }
